@@ -1,13 +1,15 @@
 #!/usr/bin/env python3
-"""Apply every stored seeded change to /repo in turn, run the quick tier of the check(s) named in its meta.json
-(default: the check of its property), restore /repo, and record whether a VIOLATION was reported.
-Writes /verif/seeded/DETECTION.json. /repo must be clean and no other campaign may be building from it meanwhile."""
+"""Apply every stored seeded change to a scratch worktree of /repo (HEAD) in turn, run the quick tier of the check(s) named in
+its meta.json (default: the check of its property) with a copy of the harness that is built against that worktree, and record
+whether a VIOLATION was reported. Writes /verif/seeded/DETECTION.json. /repo itself is not touched, so other campaigns may go on."""
 import glob, json, os, re, subprocess, sys, time
 
 ids = sys.argv[1:] or sorted(os.path.basename(os.path.dirname(p)) for p in glob.glob("/verif/seeded/*/meta.json"))
 res = {}
-if subprocess.run(["git", "-C", "/repo", "diff", "--quiet"]).returncode != 0:
-    sys.exit("/repo is dirty")
+WT, H = "/tmp/wt/recheck", "/var/tmp/harness-recheck"
+subprocess.run(["git", "-C", "/repo", "worktree", "remove", "--force", WT], capture_output=True)
+subprocess.check_call(["git", "-C", "/repo", "worktree", "add", "-q", "--detach", WT, "HEAD"])
+subprocess.check_call("rm -rf %s && cp -r /verif/harness %s && sed -i 's#=> /repo#=> %s#' %s/go.mod" % (H, H, WT, H), shell=True)
 try:
     res = json.load(open("/verif/seeded/DETECTION.json"))
 except Exception:
@@ -18,7 +20,7 @@ for sid in ids:
     meta = json.load(open(d + "/meta.json"))
     props = re.findall(r"\bC\d\d\b", meta.get("detected_by") or "") or [meta["property"]]
     props = list(dict.fromkeys([meta["property"]] + props))
-    if subprocess.run(["git", "-C", "/repo", "apply", d + "/patch.diff"]).returncode != 0:
+    if subprocess.run(["git", "-C", WT, "apply", d + "/patch.diff"]).returncode != 0:
         res[sid] = {"applies": False}
         print(sid, "PATCH DOES NOT APPLY", flush=True)
         continue
@@ -26,14 +28,16 @@ for sid in ids:
     try:
         for p in props:
             t0 = time.time()
-            out = subprocess.run(["python3", "run/check.py", p], cwd="/verif", capture_output=True, text=True, env=dict(os.environ, VERIF_SEED="1", VERIF_EVIDENCE_DIR="/var/tmp/verif-evidence-scratch")).stdout
+            out = subprocess.run(["python3", "run/check.py", p], cwd="/verif", capture_output=True, text=True, env=dict(os.environ, VERIF_SEED="1", VERIF_EVIDENCE_DIR="/var/tmp/verif-evidence-scratch", VERIF_HARNESS_DIR=H)).stdout
             hit[p] = len(re.findall(r"^VIOLATION ", out, re.M))
             if hit[p]:
                 break
     finally:
-        subprocess.run("git -C /repo checkout -- . && git -C /repo clean -fdq", shell=True)
+        subprocess.run("git -C %s checkout -q -- . && git -C %s clean -fdq" % (WT, WT), shell=True)
     res[sid] = {"applies": True, "repo_head": head, "violations_by_check": hit, "detected": any(hit.values())}
     print(sid, hit, flush=True)
     json.dump(res, open("/verif/seeded/DETECTION.json", "w"), indent=1, sort_keys=True)
 missed = [k for k, v in res.items() if not v.get("detected")]
 print("missed:", missed)
+subprocess.run(["git", "-C", "/repo", "worktree", "remove", "--force", WT], capture_output=True)
+subprocess.run(["rm", "-rf", H])
